@@ -27,6 +27,12 @@ and a target whose base name is that of one of the sub-file destinations (`tname
 mode is asked for two different contents in one file and must either refuse with the tree unchanged or write something
 that parses back.
 
+Spelling: the main input refers to its sub-files by bare name, through a sub-directory or by absolute path (`names`);
+the target is a plain path, a relative path, a jsonargparse Path or a file:// URL of the local file (`target`).
+
+Edits: on the fault-free bases with nothing pre-existing, every non-path leaf in turn gets another VALID value after
+loading (`edit`); the saved path must parse back to the changed configuration.
+
 History: after a fault-free save that returned, the SAME configuration object is saved once more with the same
 arguments into another, empty directory (`saves: 2`); the second call is judged like the first (its own snapshot
 pair, its own round trip against the configuration as it was before the first save).
@@ -82,11 +88,14 @@ class Comp:
     its file in a directory of its own (`<key>/shared.<ext>`), so that the base names collide when save() puts the
     sub-files next to the target."""
 
-    def __init__(self, kind, idx, ext, shared=False):
+    def __init__(self, kind, idx, ext, names="own"):
         self.kind, self.ext = kind, ext
         self.key = k = f"{kind.lower()}{idx + 1}"
         i = idx  # makes the values of two components of the same kind differ
-        stem = f"{k}/shared" if shared else k
+        shared = names == "shared"
+        # how the main file refers to the sub-file: bare name next to it (own) | same base name in a directory per
+        # component (shared) | through a sub-directory (subdir: 'parts/<key>.<ext>') | by its absolute path (abs)
+        stem = f"{k}/shared" if shared else f"parts/{k}" if names == "subdir" else k
         sub = f"{stem}.{ext}"
         self.files = {}  # input files (path relative to the input directory -> text)
         self.dests = []  # base names written next to the target in multi-file mode, in no particular order
@@ -154,6 +163,9 @@ class Comp:
             if doc is not None:
                 self.files[sub] = json.dumps(doc)
             self.dests.append(os.path.basename(sub))
+            if names == "abs" and kind != "F":
+                self.main_value = "@ABS:" + sub
+        self.abs_path_value = names == "abs" and kind == "F"
 
     def add(self, parser):
         from typing import Any, Dict
@@ -202,7 +214,7 @@ class Comp:
 
 
 def components(case):
-    return [Comp(kind, i, case["ext"], case["names"] == "shared") for i, kind in enumerate(case["comps"])]
+    return [Comp(kind, i, case["ext"], case["names"]) for i, kind in enumerate(case["comps"])]
 
 
 MAIN_LEAVES = [(["a"], "int"), (["t"], "tok"), (["r"], "int"), (["g", "x"], "int"), (["g", "t"], "tok"), (["e"], "enum"), (["o"], "int")]
@@ -237,7 +249,7 @@ def main_document(comps, in_dir, absolute_paths):
         v = c.main_value
         if isinstance(v, str) and v.startswith("@ABS:"):
             v = os.path.join(in_dir, v[5:])
-        elif c.kind == "F" and absolute_paths:
+        elif c.kind == "F" and (absolute_paths or c.abs_path_value):
             v = os.path.join(in_dir, v)
         doc[c.key] = v
     doc.update({"r": 4, "g": {"x": 6, "t": "tok:g1"}, "e": "B", "o": None})
@@ -292,6 +304,32 @@ def place_fault(cfg, fault, exc_kind):
         node[addr[-1]] = 1
     else:
         node[addr[-1]] = INVALID[fault["tag"]]
+
+
+def edit_points(comps, with_main):
+    """Every leaf that can be given another VALID value after loading (the configuration the user saves is then not the
+    one that the input files spell).  Path leaves are left alone (another file would be one more destination)."""
+    leaves = list(MAIN_LEAVES) if with_main else []
+    for c in comps:
+        leaves += c.leaves
+    return [{"at": addr, "tag": tag} for addr, tag in leaves if tag != "path"]
+
+
+def place_edit(cfg, edit):
+    fx = _fx()
+    node = cfg
+    for seg in edit["at"][:-1]:
+        node = node[seg]
+    old = node[edit["at"][-1]]
+    if edit["tag"] == "int":
+        new = (old if isinstance(old, int) else 0) + 100
+    elif edit["tag"] == "tok":
+        new = fx.Tok("edited")
+    elif edit["tag"] == "enum":
+        new = fx.E.C
+    else:
+        raise AssertionError(edit)
+    node[edit["at"][-1]] = new
 
 
 def fault_where(fault, comps):
@@ -458,10 +496,13 @@ def call_save(parser, cfg, target, kwargs, plan):
 
 DEFAULTS = {
     "comps": [],
-    "names": "own",  # own: every sub-file has its own base name | shared: same base name in different input directories
+    "names": "own",  # own: bare sub-file names next to the main input | shared: same base name in different input directories
+    # | subdir: referred to through a sub-directory ('parts/<key>.yaml') | abs: referred to by absolute path
+    "edit": None,  # {"at": address, "tag": type}: that leaf gets another VALID value after loading, before the save
     "layout": "other",  # other: inputs in in/, target in out/ | inplace: save onto the loaded main file | sibling: same dir, new name
     "tname": "own",  # base name of the target: own (main.<ext> / saved.<ext>) | sub<i> = that of the i-th sub-file destination
     "target": "abs",  # abs | rel (cwd = scratch root, 'out/main.yaml') | relcwd (cwd = target dir, 'main.yaml') | pathobj
+    # | fileurl ('file://' + absolute path: a local file spelled as a URL)
     "load": "parse_path",  # how the configuration was obtained: parse_path(main) | argv (parse_args(['--cfg=main']))
     "multifile": True,
     "overwrite": False,
@@ -559,6 +600,8 @@ def execute(case, twin=None):
                 cfg = parser.parse_path(main_in)
         except Exception as ex:
             raise HarnessError(f"C18 harness: the input of case {case} does not parse: {ex!r}")
+        if case["edit"]:
+            place_edit(cfg, case["edit"])
         reference = canon_cfg(jsonargparse.strip_meta(cfg), jsonargparse)
         place_fault(cfg, fault, case["exc"])
 
@@ -582,6 +625,8 @@ def execute(case, twin=None):
             cwd, target_arg = root, os.path.relpath(target_abs, root)
         elif case["target"] == "pathobj":  # a jsonargparse Path that is relative to a directory other than the cwd
             cwd, target_arg = root, jsonargparse.Path(main_name, mode="fc", cwd=out_dir)
+        elif case["target"] == "fileurl":  # the same local file, spelled as a file:// URL
+            cwd, target_arg = root, "file://" + target_abs
         else:
             cwd, target_arg = out_dir, main_name
         os.chdir(cwd)
@@ -731,6 +776,7 @@ def judge(case, comps, mode, root, out_dir, main_name, sub_names, real_dests, be
         # with colliding names which content is lost depends on the write order / the kind only: one class per collision
         loc = ("" if case["layout"] == "other" or tnamed else ":same-dir") + (":shared-subfile-names" if shared else "")
         loc += ":target-named-like-subfile" if tnamed else ""
+        loc += ":edited-after-loading" if case.get("edit") else ""
         shared = shared or tnamed
         if not os.path.isfile(target_abs) or os.path.getsize(target_abs) == 0:
             devs.append((f"{mode}:success-without-target", summary))
@@ -805,16 +851,17 @@ def run_base(base):
     out = {"cases": 0, "devs": [], "ids": [], "counts": {}, "sample": None, "nontrivial": 0}
     first_obs = {}
 
-    def one(fault, saves=1):
+    def one(fault, saves=1, edit=None):
         case = dict(base)
         case["fault"] = fault
         case["saves"] = saves
+        case["edit"] = edit
         res = execute(case, twin=first_obs.get("obs"))
         slim = slim_case(case)
         out["cases"] += 1
         out["ids"].append(int(case_id(slim), 16))
         o = res["obs"]
-        nontrivial = fault["kind"] != "none" or bool(case["pre"]) or case["layout"] != "other" or any(c.dests for c in comps)
+        nontrivial = fault["kind"] != "none" or bool(case["pre"]) or case["layout"] != "other" or any(c.dests for c in comps) or bool(edit)
         out["nontrivial"] += 1 if nontrivial else 0
         keys = [
             f"outcome:{fault['kind']}:{o['outcome']}",
@@ -847,6 +894,13 @@ def run_base(base):
                 eff = [n for n in case["pre"] if n in sub_n] if case["layout"] == "other" else []
                 if eff and main_n not in case["pre"] and len(eff) < len(sub_n):
                     keys.append("refused-subfile-exists-another-absent")
+        if edit:
+            where = "sub" if any(c.key == edit["at"][0] and c.from_file for c in comps) else "main"
+            keys.append(f"edited:{'multi' if case['multifile'] else 'single'}:{where}:{o['outcome']}:{o['roundtrip']}")
+            keys.append(f"edited-with-names:{case['names']}:{'multi' if case['multifile'] else 'single'}")
+            keys.append(f"edited-in-layout:{case['layout']}")
+        if case["names"] in ("subdir", "abs"):
+            keys.append(f"subfile-reference:{case['names']}:{'multi' if case['multifile'] else 'single'}:{fault['kind']}:{o['outcome']}")
         if case["tname"] != "own":
             keys.append(f"tname:{'multi' if case['multifile'] else 'single'}:{fault['kind']}:{o['outcome']}")
         if o["outcome"] == "saved" and case["multifile"] and any(c.from_file and c.kind in SUBCONFIG_KINDS for c in comps):
@@ -893,6 +947,11 @@ def run_base(base):
         points = [f for f in points if f["kind"] == "unser" and f.get("how") != "opaque"]
     for fault in points:
         one(fault)
+    # configurations that were modified after loading: every leaf in turn gets another valid value (no fault); the
+    # saved path must parse back to the MODIFIED configuration
+    if edit_eligible(base) and first["obs"]["outcome"] == "saved":
+        for edit in edit_points(comps, with_main=base["comps"] in EDIT_MAIN_SHAPES):
+            one({"kind": "none"}, edit=edit)
     n = first["obs"]["n"]
     for op in ("open", "write", "close"):
         for k in range(1, n[op] + 1 if not only_raising else 0):
@@ -910,6 +969,19 @@ def run_base(base):
 
 # ------------------------------------------------------------------------------------------------------------
 # the enumerated space
+
+
+def edit_eligible(base):
+    """Bases that are expanded by the edit axis: nothing pre-exists, overwrite only where the save would otherwise be
+    refused (onto / next to the loaded files), own target name, no colliding names, every secondary axis at its default."""
+    b = full_case(base)
+    return (
+        not b["pre"]
+        and b["overwrite"] == (b["layout"] != "other")
+        and b["tname"] == "own"
+        and b["names"] != "shared"
+        and all(b[k] == DEFAULTS[k] for var in SECONDARY for k in var)
+    )
 
 
 def _subsets(items):
@@ -952,6 +1024,7 @@ def target_name_shapes(tier):
 
 
 REPRESENTATIVE = [[], ["P"], ["F"], ["C"], ["F", "P"], ["F", "Pt"], ["P", "C"], ["D", "F"]]
+EDIT_MAIN_SHAPES = [[], ["P"], ["F"], ["F", "P"]]  # shapes on which the leaves of the main part are edited too (component leaves: everywhere)
 SECONDARY = [
     {"format": "json"},
     {"format": "json_indented"},
@@ -965,6 +1038,7 @@ SECONDARY = [
     {"target": "rel"},
     {"target": "relcwd"},
     {"target": "pathobj"},
+    {"target": "fileurl"},
     {"load": "argv"},
 ]
 
@@ -998,6 +1072,10 @@ def bases(tier):
             for multifile in (False, True):
                 for overwrite in (False, True):
                     for pre in ([], [main] + subs):
+                        if overwrite and not pre and tier == "quick":
+                            # nothing pre-exists, so nothing can be overwritten or refused: the flag is immaterial here;
+                            # overwrite=True x nothing pre-existing stays in the core product (A) for every shape
+                            continue
                         if "pre_content" in var and not pre:
                             # what the pre-existing files contain is immaterial when there are none: literally the
                             # base without this axis (enumerated above / as the variant made of the other axis alone)
@@ -1022,6 +1100,18 @@ def bases(tier):
             for overwrite in (False, True):
                 for pre in _subsets([main] + subs) if multifile else ([], [main]):
                     out.append({"comps": comps, "names": "shared", "multifile": multifile, "overwrite": overwrite, "pre": pre})
+    # (G) how the main file refers to its sub-files: through a sub-directory / by absolute path (the bare name next to
+    # the main file is the default everywhere else).  Every kind that has a file, alone; representative pairs in
+    # multi-file mode
+    for names in ("subdir", "abs"):
+        for comps in [[k] for k in CORE + REST if k not in ("Pi", "Pti", "Fn")] + (REPRESENTATIVE[4:] if tier == "quick" else [list(p) for p in itertools.permutations(CORE, 2)]):
+            case = full_case({"comps": comps, "names": names})
+            main, subs = destinations(case, components(case))
+            out.append({"comps": comps, "names": names, "multifile": True, "overwrite": False, "pre": []})
+            if tier != "quick":
+                out.append({"comps": comps, "names": names, "multifile": True, "overwrite": True, "pre": [main] + subs})
+            if len(comps) == 1 or tier != "quick":
+                out.append({"comps": comps, "names": names, "multifile": False, "overwrite": False, "pre": []})
     # (F) the target's base name equals the base name of one of the sub-file destinations (every one in turn):
     # multi-file mode wants two different contents in one file.  Layout `other` x mode x overwrite x every subset of
     # pre-existing destinations; layout `sibling` (the target IS the sub-file the configuration was loaded from) in
@@ -1090,7 +1180,8 @@ def explore(ctx):
         "failure point, a pre-existing destination, a same-directory layout or at least one sub-file (i.e. it is not "
         "'valid flat config saved into an empty directory'); distinct = distinct case ids; every fault-free case whose "
         "save returned continues with a second save of the same cfg object into another directory (second_saves, "
-        "counted in transitions together with its round trip, not in evaluations)",
+        "counted in transitions together with its round trip, not in evaluations); fault-free bases with nothing "
+        "pre-existing are further expanded by the edit axis (one valid change of one leaf after loading, then one save)",
         exhaustive=True,
         caps_hit=[],
         bounds={
@@ -1101,6 +1192,9 @@ def explore(ctx):
             "saves_per_case": "2 for fault-free cases (same cfg object, second directory), 1 otherwise",
             "unrepresentable_object": "every Any-typed position; every leaf when skip_validation=True",
             "layouts": ["other", "inplace", "sibling"],
+            "subfile_reference": "bare name | same base name in different directories | through a sub-directory | absolute path",
+            "edited_after_loading": "every non-path leaf in turn gets another valid value (fault-free bases with nothing pre-existing "
+            "and every secondary axis at its default; main leaves on %d shapes only)" % len(EDIT_MAIN_SHAPES),
             "target_base_name": "own | that of each sub-file destination in turn (on %d shapes)" % len(target_name_shapes(ctx.tier)),
             "secondary_axes": [sorted(v.items())[0] for v in SECONDARY],
             "secondary_axes_combined": "one at a time" if ctx.quick else "pairs",
@@ -1125,6 +1219,11 @@ def explore(ctx):
     ctx.require(c("tname:multi:none:") >= 50 and c("tname:single:none:") >= 20, ">= 50 multi-file / 20 single-file fault-free saves whose target has the base name of a sub-file")
     ctx.require(c("tname:multi:") >= 500, ">= 500 multi-file cases whose target has the base name of a sub-file")
     ctx.require(c("refused-subfile-exists-another-absent") >= 40, ">= 40 refusals where the target is absent, one sub-file exists and another one does not")
+    # attempts again (whatever the outcome): sub-file reference spellings, edited configurations, file:// targets
+    ctx.require(all(c(f"subfile-reference:{n}:multi:none:") >= 15 and c(f"subfile-reference:{n}:single:none:") >= 10 for n in ("subdir", "abs")), ">= 15 multi-file / 10 single-file fault-free saves for each spelling of the sub-file reference (sub-directory, absolute)")
+    ctx.require(c("edited:multi:sub:") >= 50 and c("edited:multi:main:") >= 50 and c("edited:single:") >= 50, ">= 50 configurations edited after loading inside a sub-file config / in the main part (multi-file), >= 50 in single-file mode")
+    ctx.require(c("edited-with-names:abs:multi") >= 15 and c("edited-with-names:subdir:multi") >= 15, ">= 15 edited configurations for each non-bare spelling of the sub-file reference")
+    ctx.require(c("edited-in-layout:inplace") >= 20 and c("edited-in-layout:sibling") >= 20, ">= 20 edited configurations saved onto / next to the files they were loaded from")
     # guards of the second-save / unrepresentable-object axes count ATTEMPTS (whatever the outcome), so that a tree on
     # which they go wrong is reported as a violation, not as a vacuous run
     ctx.require(c("second-save:roundtrip:") >= 100, ">= 100 second saves of the same cfg object")
